@@ -1,5 +1,7 @@
 package main
 
+import "strings"
+
 // C14 — JWT assertions and request objects count only when signed by the named client (DESIGN §5 C14).
 
 func init() {
@@ -45,6 +47,11 @@ func init() {
 		{ID: "E8.assertion.helper", Fn: "client.SignedJWTProfileAssertion", P: []string{"clientID", "audience", "expiration", "signer"}, Kind: "call",
 			Pat: "crypto.Sign(&JWTTokenRequest{Issuer: $clientID, Subject: $clientID, Audience: $audience, ExpiresAt: oidc.FromTime($exp), IssuedAt: oidc.FromTime($iat)}, $signer)", Max: 1,
 			Req: []string{"def($iat, time.Now())", "def($exp, $iat.Add($expiration))"}},
+	}
+	for _, o := range obs {
+		if strings.HasPrefix(o.ID, "E1.assertion.") || strings.HasPrefix(o.ID, "E8.assertion.") {
+			sharedObs["C05"] = append(sharedObs["C05"], o) // private_key_jwt client authentication is assertion verification
+		}
 	}
 	register(&PropSpec{
 		ID: "C14",
